@@ -22,6 +22,7 @@ var c07Alpha = []*BatchSpec{
 	kv("k1", "<del>", "k4", "$"),
 	kv("k2", "$"),
 	{Ops: kv("k3", "<del>").Ops, Kids: kid("A", kv("x", "$"))},
+	kv("zz", "<del>", "k0", "$"), // deletion of a key that was never set and sorts after every other key
 }
 
 func c07Configs(tier string) []Config {
@@ -142,7 +143,7 @@ func dataFiles(dir string) []string {
 func c07One(cfg Config, seq []int, res *c07Res) *Violation {
 	w := NewWorld(cfg, c07Alpha)
 	defer w.Teardown()
-	w.probes = []string{"k1", "k2", "k3", "k4", "big", "x"}
+	w.probes = []string{"k0", "k1", "k2", "k3", "k4", "big", "x", "zz"}
 	if w.infra != "" {
 		res.Infra = w.infra
 		return nil
@@ -189,6 +190,11 @@ func c07One(cfg Config, seq []int, res *c07Res) *Violation {
 			v.Sig = "collection-" + strings.SplitN(v.Sig, "|", 2)[0] + "|" + kind + "|any"
 			v.Msg = where + " (" + kind + "): " + v.Msg
 			return &v
+		}
+		// what is on disk right now must reopen to the same content (a partial compaction's footer must be complete)
+		if v := w.reopenCopyOracle("C07", w.model().DumpT(w.probes), "after-"+kind); v != nil {
+			v.Msg = where + " (" + kind + "): " + v.Msg
+			return v
 		}
 		if kind == "full" {
 			if segAny > 1 {
